@@ -150,7 +150,7 @@ def run(ctx):
     # ---- R16.4m repeated layers / ports are merged, not overwritten
     from rules import mergerules as mr
     folding = select(F, PFX, [IMP, r"^&lef21::LefMacro$"], r"Result<.*Abstract,") + select(F, PFX, [IMP, r"^&lef21::LefPin$"], r"Result<.*AbstractPort,")
-    mr.rule_no_lossy_map_merge(ctx, "R16.4m", folding, floor=2, what="LEF text (several OBS / PORT / LAYER statements on one layer)")
+    mr.rule_no_lossy_map_merge(ctx, "R16.4m", folding, floor=0, what="LEF text (several OBS / PORT / LAYER statements on one layer)")
     mr.rule_no_overwrite_in_loop(ctx, "R16.4o", [PFX], floor=1)
 
     # ---- R16.6 names are kept and matched exactly
@@ -168,7 +168,7 @@ def run(ctx):
             if FOLD.search(n):
                 key = "%s/%s" % (f.short.replace("::{closure#0}", ""), n.split("::")[-1])
                 ctx.violation("R16.6", key, "%s compares or stores a name through %s: names that differ only in letter case are merged, so shapes land on a layer other than the one the LEF names" % (f.short, n.split("::")[-1]), b.site(bi), key)
-    ctx.floor("R16.6", "name_lookup_sites", n_lookup, 2)
+    ctx.floor("R16.6", "name_lookup_sites", n_lookup, 1)
     if n_lookup:
         ctx.ok("R16.6", "no-case-folding", "%d name lookups, none case-folded" % n_lookup)
 
